@@ -15,11 +15,14 @@ def key_of(ev, mism):
 def run(chk):
     exe = vlib.build_harness('release')
     if chk.quick:
-        groups = [['20:2:1', '37:1:2', '5:1:1', '26:1:1'], ['49:2:3', '13:1:1', '1:1:1'], ['300:3:1', '2000:4:2'], ['9000:8:1', '120:2:5']]
+        groups = [['20:2:1', '37:1:2', '5:1:1', '26:1:1'], ['49:2:3', '13:1:1', '1:1:1'], ['300:3:1', '2000:4:2'], ['9000:8:1', '120:2:5'],
+                  # objects whose source blocks are byte-identical (zero / constant / periodic data)
+                  ['40:1:2:1', '64:2:4:2', '96:1:3:3', '37:1:2:2']]
         windows = 8
     else:
         groups = [['%d:%d:%d' % (k * t * z - (k % t), t, z)] for k in (1, 2, 3, 5, 7, 10, 11, 13, 17, 19, 20, 23, 26) for t, z in ((1, 1), (2, 2))]
         groups += [['300:3:1', '2000:4:2'], ['9000:8:1', '120:2:5'], ['60000:16:3'], ['400000:64:1'], ['5000:5:4', '777:7:1']]
+        groups += [['40:1:2:1', '64:2:4:2', '96:1:3:3', '37:1:2:2'], ['1600:16:5:2', '400:8:2:1', '3200:4:8:3']]
         windows = 30
     jobs = []
     for i, g in enumerate(groups):
